@@ -20,7 +20,7 @@ CHECKS = {
     "C05": dict(
         category="exploration",
         text="Model-based stateful testing: generated edit histories (<=40 ops: add/new/del atom by object, index, label, Element; connect; append_bond(s)/extend_bonds "
-             "with foreign atoms; del_bond; remove_substituent; add_implicit_hydrogens; substructure writes) are interpreted on Molecule and Structure and on an "
+             "with foreign atoms; del_bond; remove_substituent; add_implicit_hydrogens; substructure writes and bond deletion through a view, re-attachment of deleted atoms, atoms stolen from another molecule) are interpreted on Molecule and Structure and on an "
              "identity-keyed reference model, invariants after every step; plus ALL op sequences up to length 3/4 over an 18-letter alphabet. The statement quantifies "
              "over histories, which a model-based interpreter explores directly.",
         design_ref="DESIGN.md section 5, C05",
@@ -41,7 +41,7 @@ CHECKS = {
         category="exploration",
         text="Exhaustive vocabulary leg: every Element x AtomType x AtomGeom (44 982 on this tree) as a one-atom molecule and every BondType on a two-atom "
              "molecule is written, must be accepted by the reader with the element recovered, and the second write must reproduce the text. Random leg: generated "
-             "Molecule / Structure / ConformerEnsemble objects round-trip field by field at the written precision through loads / loads_all / load(stream) / "
+             "Molecule / Structure / Substructure-view / ConformerEnsemble objects round-trip field by field at the written precision through loads / loads_all / load(stream) / "
              "ConformerEnsemble.loads_mol2, plus the text fixed point.",
         design_ref="DESIGN.md section 5, C07",
         note="Labels whitespace-free; names one stripped line; |x|<1e5; isotopes / formal charges / stereo / attributes are not expressible in mol2 and not compared.",
@@ -49,7 +49,7 @@ CHECKS = {
     ),
     "C08": dict(
         category="exploration",
-        text="Round-trip leg over generated geometries and 1-5 frame ensembles through every xyz loader entry point (count, order, elements, coordinates at "
+        text="Round-trip legs over generated geometries, 1-5 frame ensembles and multi-molecule xyz texts (consecutive frames of equal size and different elements) through every xyz loader entry point (count, order, elements, coordinates at "
              "the written precision, second write identical); metamorphic unit leg: the same Angstrom geometry expressed in each DistanceUnit member with the "
              "physical factor held by the harness (CODATA), read with source_units through xyz and mol2 single / load_all / ensemble loaders, pairwise distances "
              "compared with the Angstrom original.",
@@ -61,7 +61,7 @@ CHECKS = {
         category="exploration",
         text="The configuration matrix {load, loads, load_all, loads_all, dump, dumps} x formats {xyz, mol2, cdxml, obabel-only, nonsense} x source/target kind "
              "{str path, Path, string, open stream} x fmt {explicit, from suffix} x otype {'molecule','ensemble', Structure, Molecule, ConformerEnsemble} x name {given, not} "
-             "x mode {a, w} is enumerated completely on bundled files and sampled on generated single / multi-frame inputs. Differential oracle: same type and snapshot as the "
+             "x mode {a, w} is enumerated completely on bundled files and sampled on generated single / multi-frame inputs; a history leg re-uses one path with new contents (load, rewrite, load again). Differential oracle: same type and snapshot as the "
              "class method, list where promised, name honoured, text in the caller's stream which stays open, no leaked descriptor, ValueError for unsupported formats.",
         design_ref="DESIGN.md section 5, C09",
         note="openbabel cells cannot run (skipped, counted); cdxml compared on constitution only; loads_all for ensembles has no class-level counterpart.",
@@ -92,7 +92,8 @@ CHECKS = {
         category="exploration",
         text="Constructed 3-D fragments (jittered lattice, random tree + ring closures, attachment point with any bond type, random rigid pose; also exactly parallel / "
              "antiparallel / z-aligned attachment vectors) are joined with generated options (dist, optimize_rotation, charge incl. 0 / mult / name / bond overrides) through "
-             "Molecule.join and Structure.join, and iteratively on multi-attachment cores exactly as molli combine does. Oracle: atom and bond transfer field by field, new bond "
+             "Molecule.join and Structure.join, and iteratively on multi-attachment cores (all or a subset of the attachment points) exactly as molli combine does, with the real "
+             "molli.scripts.combine._ml_assemble compared against the stepwise product. Oracle: atom and bond transfer field by field, new bond "
              "type, proper rigid fit of each fragment (own Kabsch, mirror detected separately), bond length, frame-free bond-direction test from both fragments, charge / "
              "multiplicity, bit-identical coordinates under two np.random states, sources unchanged, nothing shared.",
         design_ref="DESIGN.md section 5, C12",
@@ -178,7 +179,7 @@ CHECKS = {
         category="exploration",
         text="Bounded-exhaustive (all op sequences up to length 4/5 over a 14-letter alphabet on two raw UKVFile handles) plus random "
              "model-based histories on raw handles and on Collection sessions with stale handles and four buffer sizes, each compared "
-             "step by step with an insertion-ordered reference map. Exploration is the right level: the claim is over histories, and "
+             "step by step with an insertion-ordered reference map; raw histories also contain puts whose stream write fails (injected OSError). Exploration is the right level: the claim is over histories, and "
              "a reference model decides every step; no absence proof is claimed beyond the enumerated bound.",
         design_ref="DESIGN.md section 5, C02",
         note="Trusted: the reference model in vf/props/c02.py; at most one raw writer at a time; mode 'w' only creates; python file "
@@ -198,8 +199,8 @@ CHECKS = {
     ),
     "C04": dict(
         category="fault_enumeration",
-        text="(a) harness-owned schedules: all sequences of <=2/<=3 sessions over 9 session kinds (6 failing, faults injected at body / encoder / flush-time "
-             "backend write / end_write / end_read) on handles living in three processes, with a lock probe from a fresh process after every session; "
+        text="(a) harness-owned schedules: all sequences of <=2/<=3 sessions over 11 session kinds (8 failing, faults injected at body / encoder / flush-time "
+             "backend write / end_write / end_read / begin_write / begin_read) on handles living in three processes, with a lock probe from a fresh process after every session; "
              "(b) real 8-16 process schedules with random delays whose oracle (timestamps taken inside the protected body, hand-over after failing sessions) "
              "cannot misfire on correct locking. Real interleavings are sampled, only session-granular schedules are exhaustive.",
         design_ref="DESIGN.md section 5, C04",
